@@ -12,6 +12,7 @@ import Sipsp.Properties.C02
 import Sipsp.Proofs.AuditFixB
 import Sipsp.Properties.C03
 import Sipsp.Properties.C04
+import Sipsp.Proofs.SigGuard
 import Sipsp.Properties.C05
 import Sipsp.Properties.C06
 import Sipsp.Properties.C10
@@ -19,6 +20,7 @@ import Sipsp.Properties.C11
 import Sipsp.Properties.C14
 import Sipsp.Properties.C15
 import Sipsp.Properties.C18
+import Sipsp.Properties.C19
 import Sipsp.Properties.C20
 
 namespace Sipsp
@@ -415,7 +417,7 @@ theorem ae_msg_suspended_legit (b s : Buf) (hfit : b.size ≤ 65535) (o : Nat) (
 theorem ae_sig_after_suspension (b s : Buf) (hfit : (b ++ s).size ≤ 65535) (o : Nat) (m0 : PSIPMsg) (flags : Nat)
     (hR0 : ScReach m0) (hok0 : msgOK2 b o m0) (hS0 : MsgSafe b o m0) {o1 o2 : Nat} {m1 m2 : PSIPMsg}
     (hr1 : parseSIPMsg b o m0 flags = (o1, .moreBytes, m1))
-    (hr2 : parseSIPMsg (b ++ s) o1 m1 flags = (o2, .ok, m2)) : (getMsgSig m2 (b ++ s)).2.2 = false := by
+    (hr2 : parseSIPMsg (b ++ s) o1 m1 flags = (o2, .ok, m2)) : (getMsgSigCore m2 (b ++ s)).2.2 = false := by
   have hfit1 : b.size ≤ 65535 := by rw [Array.size_append] at hfit; omega
   have hL := ae_msg_suspended_legit b s hfit1 o m0 flags hok0 hS0 hr1
   have hR : ScReach m1 := by
@@ -424,14 +426,103 @@ theorem ae_sig_after_suspension (b s : Buf) (hfit : (b ++ s).size ≤ 65535) (o 
     exact this
   exact C04.sig_never_panics_history (b ++ s) o1 m1 flags hfit hR hL.1 hL.2 hr2
 
+/-- … the same for the exported (guarded) `GetMsgSig`: it can only panic through its core (`Sipsp.Proofs.SigGuard`) -/
+theorem ae_sig_after_suspension_guarded (b s : Buf) (hfit : (b ++ s).size ≤ 65535) (o : Nat) (m0 : PSIPMsg) (flags : Nat)
+    (hR0 : ScReach m0) (hok0 : msgOK2 b o m0) (hS0 : MsgSafe b o m0) {o1 o2 : Nat} {m1 m2 : PSIPMsg}
+    (hr1 : parseSIPMsg b o m0 flags = (o1, .moreBytes, m1))
+    (hr2 : parseSIPMsg (b ++ s) o1 m1 flags = (o2, .ok, m2)) : (getMsgSig m2 (b ++ s)).2.2 = false := by
+  have hc := ae_sig_after_suspension b s hfit o m0 flags hR0 hok0 hS0 hr1 hr2
+  cases hg : (getMsgSig m2 (b ++ s)).2.2
+  · rfl
+  · have := (getMsgSig_panics_only_via_core m2 (b ++ s) hg).2
+    rw [hc] at this
+    cases this
+
 -- `C04.sig_never_panics_history` on the suspended object `aeS4R1.2.2` (through `ae_sig_after_suspension`)
-example : (getMsgSig aeS4R2.2.2 (aeS41 ++ aeS4S)).2.2 = false :=
+example : (getMsgSigCore aeS4R2.2.2 (aeS41 ++ aeS4S)).2.2 = false :=
   ae_sig_after_suspension aeS41 aeS4S (by decide +kernel) 0 aeS4I 0 (ScReach.init {} 0 0 0 none none)
     (msgOK2_init aeS41 0 (Nat.zero_le _) {} 0 0 0 none none) (MsgSafe_init aeS41 0 (Nat.zero_le _) {} 0 0 0 none none)
     (o1 := aeS4R1.1) (m1 := aeS4R1.2.2) (ae_eta3 aeS4R1 (by decide +kernel)) (ae_eta3 aeS4R2 (by decide +kernel))
 
 -- test: the signature itself is produced (verdict OK)
-example : (getMsgSig aeS4R2.2.2 (aeS41 ++ aeS4S)).2.1 = .ok := by decide +kernel
+example : (getMsgSigCore aeS4R2.2.2 (aeS41 ++ aeS4S)).2.1 = .ok := by decide +kernel
+
+/-! ## (B)(iv) C04: the returned offset after OK / MoreBytes, one uniform shape
+
+  `P b o st = (o', e, st')`, `e` = OK or MoreBytes, the object legitimate ⟹ `o ≤ o' ∧ o' ≤ len(b)`.
+  Re-statements of existing range lemmas (Proofs/Range, Post, NameAddrRR, ContactsL2, HdrLineL2, HeadersL2, MsgL1/L2) where
+  they exist; the hypotheses are the legitimacy conditions of C02 / C03. -/
+
+theorem ae_parseUIntVal_offset_monotone (b : Buf) (o : Nat) (st : PUIntBody) (ho : o ≤ b.size) {o' : Nat} {e : Err}
+    {st' : PUIntBody} (hr : parseUIntVal b o st = (o', e, st')) (_he : e = .ok ∨ e = .moreBytes) :
+    o ≤ o' ∧ o' ≤ b.size := by
+  have := parseUIntVal_range b o st ho
+  rw [hr] at this
+  exact this
+
+theorem ae_parseCLenVal_offset_monotone (b : Buf) (o : Nat) (st : PUIntBody) (ho : o ≤ b.size) {o' : Nat} {e : Err}
+    {st' : PUIntBody} (hr : parseCLenVal b o st = (o', e, st')) (he : e = .ok ∨ e = .moreBytes) :
+    o ≤ o' ∧ o' ≤ b.size := by
+  rcases he with rfl | rfl
+  · have := parseCLenVal_post b o st ho hr; exact ⟨this.1, this.2.1⟩
+  · exact parseCLenVal_more_range b o st ho hr
+
+theorem ae_parseCSeqVal_offset_monotone (b : Buf) (o : Nat) (st : PCSeqBody) (ho : o ≤ b.size) (hok : csOK b o st)
+    {o' : Nat} {e : Err} {st' : PCSeqBody} (hr : parseCSeqVal b o st = (o', e, st'))
+    (he : e = .ok ∨ e = .moreBytes) : o ≤ o' ∧ o' ≤ b.size := by
+  rcases he with rfl | rfl
+  · have := parseCSeqVal_post b o st ho hr; exact ⟨this.1, this.2.1⟩
+  · exact parseCSeqVal_more_range b o st hok hr
+
+theorem ae_parseNameAddrPVal_offset_monotone (t : Nat) (b : Buf) (o : Nat) (pf : PFromBody) (ho : o ≤ b.size)
+    (hok : naOK b o pf) {o' : Nat} {e : Err} {pf' : PFromBody} (hr : parseNameAddrPVal t b o pf = (o', e, pf'))
+    (he : e = .ok ∨ e = .moreBytes) : o ≤ o' ∧ o' ≤ b.size := by
+  rcases he with rfl | rfl
+  · exact (naPVal_ok_range t b o pf ho hr (Or.inl rfl)).2
+  · exact parseNameAddrPVal_more_range t b o pf hok hr
+
+/-- … also after MoreValues (the list parsers' "one more value follows") -/
+theorem ae_parseNameAddrPVal_offset_monotone_mv (t : Nat) (b : Buf) (o : Nat) (pf : PFromBody) (ho : o ≤ b.size)
+    {o' : Nat} {pf' : PFromBody} (hr : parseNameAddrPVal t b o pf = (o', .moreValues, pf')) :
+    o ≤ o' ∧ o' ≤ b.size := (naPVal_ok_range t b o pf ho hr (Or.inr rfl)).2
+
+theorem ae_parseAllContactValues_offset_monotone (b : Buf) (o : Nat) (c : PContacts) (ho : o ≤ b.size)
+    (hok : ctOK b o c) {o' : Nat} {e : Err} {c' : PContacts} (hr : parseAllContactValues b o c = (o', e, c'))
+    (he : e = .ok ∨ e = .moreBytes) : o ≤ o' ∧ o' ≤ b.size := by
+  rcases he with rfl | rfl
+  · have := parseAllContactValues_post b o c hok ho hr; exact ⟨this.1, this.2.1⟩
+  · exact (parseAllContactValues_resume b #[] o c hok ho hr).2.2.2
+
+theorem ae_parseAllPAIValues_offset_monotone (b : Buf) (o : Nat) (c : PPAIs) (ho : o ≤ b.size)
+    (hok : paOK b o c) {o' : Nat} {e : Err} {c' : PPAIs} (hr : parseAllPAIValues b o c = (o', e, c'))
+    (he : e = .ok ∨ e = .moreBytes) : o ≤ o' ∧ o' ≤ b.size := by
+  rcases he with rfl | rfl
+  · have := parseAllPAIValues_post b o c hok ho hr; exact ⟨this.1, this.2.1⟩
+  · exact (parseAllPAIValues_resume b #[] o c hok ho hr).2.2.2
+
+theorem ae_parseFLine_offset_monotone (b : Buf) (o : Nat) (pl : PFLine) (ho : o ≤ b.size) (hok : flOK pl)
+    (hfit : b.size ≤ 65535) {o' : Nat} {e : Err} {pl' : PFLine} (hr : parseFLine b o pl = (o', e, pl'))
+    (he : e = .ok ∨ e = .moreBytes) : o ≤ o' ∧ o' ≤ b.size := by
+  have hge := parseFLine_ge b o pl
+  rw [hr] at hge
+  refine ⟨hge, ?_⟩
+  rcases he with rfl | rfl
+  · have := parseFLine_range b o pl ho
+    rw [hr] at this
+    exact (this rfl).2
+  · exact (parseFLine_resume b #[] o pl ho hok hfit hr).2.2
+
+theorem ae_parseHdrLine_offset_monotone (b : Buf) (o : Nat) (h : Hdr) (hb : Option PHdrVals) (hok : hlOK b o h hb)
+    (hpe : hlPending (h, hb)) {o' : Nat} {e : Err} {h' : Hdr} {hb' : Option PHdrVals}
+    (hr : parseHdrLine b o h hb = (o', e, h', hb')) (he : e = .ok ∨ e = .moreBytes) : o ≤ o' ∧ o' ≤ b.size := by
+  rcases he with rfl | rfl
+  · exact ⟨Nat.le_of_lt (parseHdrLine_ok_gt b o h hb hok hpe hr), (parseHdrLine_post b o h hb hok hr (Or.inl rfl)).1⟩
+  · exact (parseHdrLine_resume b #[] o h hb hok hpe hr).2.2.2
+
+/-- … and strictly forward after OK (a header line is never empty) -/
+theorem ae_parseHdrLine_ok_advances (b : Buf) (o : Nat) (h : Hdr) (hb : Option PHdrVals) (hok : hlOK b o h hb)
+    (hpe : hlPending (h, hb)) {o' : Nat} {h' : Hdr} {hb' : Option PHdrVals}
+    (hr : parseHdrLine b o h hb = (o', .ok, h', hb')) : o < o' := parseHdrLine_ok_gt b o h hb hok hpe hr
 
 /-! ## C05: `layout_one_call` and `fields_inside_consumed` on a RESUMED object -/
 
@@ -961,6 +1052,111 @@ example :
 -- test: the numbers after the second relocation (host 106 - 100 + 7 = 13, port number kept)
 example : (aeU18U1.adjustOffs ⟨7, 20⟩).2.1.host = ⟨13, 1⟩ ∧ (aeU18U1.adjustOffs ⟨7, 20⟩).2.1.portNo = 5060 := by
   decide +kernel
+
+/-! ## C19 -/
+
+/-- decidable equality of view keys, local to the tests of this section -/
+@[instance_reducible] def aeSigKeyDecEq : DecidableEq SigKey := fun a b =>
+  decidable_of_iff (a.type = b.type ∧ a.compact = b.compact ∧ a.viaVal = b.viaVal)
+    (by cases a; cases b; simp)
+attribute [local instance] aeSigKeyDecEq
+
+/-- a request: Via, compact From, To, Call-ID, CSeq, Content-Length -/
+def aeG19A : Buf := "INVITE sip:a@b SIP/2.0\r\nVia: SIP/2.0/UDP h;branch=z9hG4bK-1\r\nf: <sip:a@b>;tag=t1\r\nTo: <sip:c@d>\r\nCall-ID: c1@h\r\nCSeq: 1 INVITE\r\nContent-Length: 0\r\n\r\n".toUTF8.data
+/-- the same request with a filler header (Subject) inserted behind the Via and another one (X-Filler) before
+    Content-Length, and another To URI: a DIFFERENT message with the same fingerprinted content -/
+def aeG19B : Buf := "INVITE sip:a@b SIP/2.0\r\nVia: SIP/2.0/UDP h;branch=z9hG4bK-1\r\nSubject: hi\r\nf: <sip:a@b>;tag=t1\r\nTo: <sip:e@f>\r\nCall-ID: c1@h\r\nCSeq: 1 INVITE\r\nX-Filler: x\r\nContent-Length: 0\r\n\r\n".toUTF8.data
+def aeG19I (k : Nat) : PSIPMsg := ({} : PSIPMsg).init 0 ((some ()).map fun _ => Array.replicate k {})
+  ((none : Option Unit).map fun _ => Array.replicate 0 {})
+def aeG19RA : Nat × Err × PSIPMsg := parseSIPMsg aeG19A 0 (aeG19I 8) 0
+def aeG19RB : Nat × Err × PSIPMsg := parseSIPMsg aeG19B 0 (aeG19I 12) 0
+
+theorem aeG19_parsedA : SvParsed aeG19RA.2.2 :=
+  svParsed_init aeG19A 0 {} 0 8 0 (some ()) none 0 (ae_eta3 aeG19RA (by decide +kernel))
+theorem aeG19_parsedB : SvParsed aeG19RB.2.2 :=
+  svParsed_init aeG19B 0 {} 0 12 0 (some ()) none 0 (ae_eta3 aeG19RB (by decide +kernel))
+
+-- test: the two parsed objects differ (6 headers against 8, other offsets)
+example : aeG19RA.2.2.hl.n = 6 ∧ aeG19RB.2.2.hl.n = 8 ∧ aeG19RA.2.2.pv.to.uri ≠ aeG19RB.2.2.pv.to.uri := by
+  decide +kernel
+
+-- `C19.same_view_same_signature_unconditional` on the two DIFFERENT parsed messages
+example : (getMsgSigCore aeG19RB.2.2 aeG19B).1 = (getMsgSigCore aeG19RA.2.2 aeG19A).1 ∧
+    (getMsgSigCore aeG19RB.2.2 aeG19B).2.2 = (getMsgSigCore aeG19RA.2.2 aeG19A).2.2 :=
+  C19.same_view_same_signature_unconditional aeG19RA.2.2 aeG19RB.2.2 aeG19A aeG19B aeG19_parsedA aeG19_parsedB
+    (by decide +kernel) (by decide +kernel) (by decide +kernel) (by decide +kernel) (by decide +kernel)
+    (by decide +kernel)
+
+-- test: the common signature (hdrSig: Via, compact From, To, Call-ID, CSeq) and the common restricted view
+example : (getMsgSigCore aeG19RA.2.2 aeG19A).2.1 = .ok ∧ (getMsgSigCore aeG19RA.2.2 aeG19A).1.hdrSig = [6, 11, 5, 0, 2] ∧
+    (svFirsts aeG19RB.2.2 aeG19B).map (fun k => (k.type, k.compact)) =
+      [(HdrVia, false), (HdrFrom, true), (HdrTo, false), (HdrCallID, false), (HdrCSeq, false)] := by decide +kernel
+
+/-! ### the edit theorems applied to parsed messages (`Covered` from `SvParsed.covered`, not by computation) -/
+
+theorem aeG19_covA : C19.Covered aeG19RA.2.2 := aeG19_parsedA.covered
+theorem aeG19_covB : C19.Covered aeG19RB.2.2 := aeG19_parsedB.covered
+
+-- `C19.edit_insert_repeat`: a second Via (a copy of the stored one, type Via occurs among the first two headers)
+-- inserted at position 2 of message A, any header count
+example (n' : Nat) :
+    (getMsgSigCore (C19.withHdrs aeG19RA.2.2 (aeG19RA.2.2.hl.hdrs.toList.take 2 ++
+      aeG19RA.2.2.hl.hdrs[0]! :: aeG19RA.2.2.hl.hdrs.toList.drop 2) n') aeG19A).1 = (getMsgSigCore aeG19RA.2.2 aeG19A).1 :=
+  (C19.edit_insert_repeat aeG19RA.2.2 aeG19A _ _ aeG19RA.2.2.hl.hdrs[0]! n' aeG19_covA
+    (List.take_append_drop 2 _).symm ⟨aeG19RA.2.2.hl.hdrs[0]!, by decide +kernel, rfl⟩).1
+
+-- test: that header is a Via (a fingerprinted type: `edit_insert_other` would not apply)
+example : aeG19RA.2.2.hl.hdrs[0]!.type = HdrVia ∧ HdrVia ∈ Gen.sigHdrs := by decide +kernel
+
+-- `C19.edit_change_other`: the Subject header of message B (index 1, not fingerprinted) replaced by another
+-- non-fingerprinted header
+example (n' : Nat) :
+    (getMsgSigCore (C19.withHdrs aeG19RB.2.2 (aeG19RB.2.2.hl.hdrs.toList.take 1 ++
+      ({ type := HdrOther, name := ⟨60, 9⟩, val := ⟨71, 2⟩ } : Hdr) :: aeG19RB.2.2.hl.hdrs.toList.drop 2) n') aeG19B).1 =
+    (getMsgSigCore aeG19RB.2.2 aeG19B).1 :=
+  (C19.edit_change_other aeG19RB.2.2 aeG19B _ _ aeG19RB.2.2.hl.hdrs[1]! _ n' aeG19_covB (by decide +kernel)
+    (by decide +kernel) (by decide)).1
+
+-- `C19.edit_padding`: three cleared entries appended behind the stored headers of message A (a larger array)
+example (n' : Nat) :
+    (getMsgSigCore (C19.withHdrs aeG19RA.2.2 (aeG19RA.2.2.hl.hdrs.toList ++ List.replicate 3 ({} : Hdr) ++ []) n') aeG19A).1 =
+    (getMsgSigCore aeG19RA.2.2 aeG19A).1 :=
+  (C19.edit_padding aeG19RA.2.2 aeG19A _ (List.replicate 3 ({} : Hdr)) [] n' aeG19_covA (List.append_nil _).symm
+    (fun x hx => by rw [List.eq_of_mem_replicate hx]; decide)).1
+
+/-! ### `C19.sig_capacity` applied: header arrays of 3 and of 10 entries over a two-piece chunk schedule -/
+
+def aeG19Cuts : List Buf := [aeG19A.extract 0 50, aeG19A]
+
+theorem aeG19_growing : Growing aeG19Cuts := ⟨⟨aeG19A.extract 50 aeG19A.size, by decide +kernel⟩, trivial⟩
+
+def aeG19Run (k : Nat) : Nat × Err × PSIPMsg :=
+  resumeRun (fun b o m => parseSIPMsg b o m 0) 0
+    (({} : PSIPMsg).init 0 ((some ()).map fun _ => Array.replicate k {})
+      ((none : Option Unit).map fun _ => Array.replicate 0 {})) aeG19Cuts
+
+theorem aeG19_cap : (aeG19Run 10).1 = (aeG19Run 3).1 ∧ (aeG19Run 10).2.1 = .ok ∧
+    (aeG19Run 10).2.2.hl.n = (aeG19Run 3).2.2.hl.n ∧
+    (aeG19Run 3).2.2.hl.hdrs.size = scCap 3 (some ()) ∧ (aeG19Run 10).2.2.hl.hdrs.size = scCap 10 (some ()) ∧
+    ((aeG19Run 3).2.2.hl.n ≤ scCap 3 (some ()) → (aeG19Run 3).2.2.hl.n ≤ scCap 10 (some ()) →
+      ∀ b, getMsgSigCore (aeG19Run 3).2.2 b = getMsgSigCore (aeG19Run 10).2.2 b) ∧
+    (scCap 3 (some ()) < (aeG19Run 3).2.2.hl.n → scCap 3 (some ()) ≤ scCap 10 (some ()) →
+      ∀ b, (getMsgSigCore (aeG19Run 3).2.2 b).2.1 = .trunc ∨ getMsgSigCore (aeG19Run 3).2.2 b = getMsgSigCore (aeG19Run 10).2.2 b) :=
+  C19.sig_capacity 0 0 {} {} 0 3 0 10 0 (some ()) none (some ()) none aeG19Cuts aeG19_growing
+    (fun x hx => by
+      have hx' : x ∈ [aeG19A.extract 0 50, aeG19A] := hx
+      simp only [List.mem_cons, List.not_mem_nil, or_false] at hx'
+      rcases hx' with h | h
+      · rw [h]; decide +kernel
+      · rw [h]; decide +kernel)
+    (fun b hb => Nat.zero_le _) (List.cons_ne_nil _ _) (aeG19Run 3) (aeG19Run 10) rfl rfl (by decide +kernel)
+
+-- the applied consequence: with the array of 3 (6 headers do not fit) the signature call reports Trunc or agrees with
+-- the array of 10; the test shows which one happens here
+example : (getMsgSigCore (aeG19Run 3).2.2 aeG19A).2.1 = .trunc ∨
+    getMsgSigCore (aeG19Run 3).2.2 aeG19A = getMsgSigCore (aeG19Run 10).2.2 aeG19A :=
+  aeG19_cap.2.2.2.2.2.2 (by decide +kernel) (by decide) aeG19A
+example : (getMsgSigCore (aeG19Run 3).2.2 aeG19A).2.1 = .trunc ∧ (aeG19Run 3).2.2.hl.n = 6 := by decide +kernel
 
 /-! ## (B)(ii) C20: the address array has exactly 4 entries (the span theorems read `ip[0]!` … `ip[3]!`) -/
 
